@@ -21,15 +21,15 @@ MODES = ("C01", "C02", "C03", "C04", "C05")
 # rough cost (seconds on one core) used only to keep runs short
 FIT_COST = {("daily", "default"): 2.0, ("daily", "legacy"): 0.4, ("daily", "seasonmap"): 2.0,
             ("daily", "dev_nosmooth"): 2.0, ("daily", "dev_alphaall"): 5.0, ("daily", "dev_nogauss"): 9.0,
-            ("daily", "dev_cvrmse"): 2.5, ("daily", "legacy_dev"): 0.6, "billing": 0.4, "hourly": 1.2,
+            ("daily", "dev_cvrmse"): 2.5, ("daily", "legacy_dev"): 0.6, ("daily", "weekmap"): 2.5, "billing": 0.4, "hourly": 1.2,
             "caltrack": 10.0}
 PRED_COST = {"daily": 0.25, "billing": 0.25, "hourly": 0.8, "caltrack": 5.0}
 
 PROFILE_WEIGHTS = {
-    "daily": [("default", 5), ("legacy", 3), ("seasonmap", 2), ("dev_nosmooth", 1), ("dev_alphaall", 0.5),
+    "daily": [("default", 5), ("legacy", 3), ("seasonmap", 2), ("weekmap", 1), ("dev_nosmooth", 1), ("dev_alphaall", 0.5),
               ("dev_nogauss", 0.3), ("dev_cvrmse", 1), ("legacy_dev", 1)],
     "billing": [("default", 5), ("seasonmap", 2), ("dev_cvrmse", 1.5), ("dev_split", 1)],
-    "hourly": [("seed1", 4), ("seed0", 1), ("robust", 1.5), ("solar", 1.5), ("solar_rev", 0.8), ("nonsolar", 1.5), ("adaptive", 1), ("lowthr", 1.5),
+    "hourly": [("seed1", 4), ("seed0", 1), ("robust", 1.5), ("solar", 1.5), ("solar_rev", 0.8), ("nonsolar", 1.5), ("adaptive", 1), ("adaptive_lowthr", 0.7), ("lowthr", 1.5),
                ("cvonly", 0.8), ("pnonly", 0.8), ("noedge", 1), ("obj", 1)],
     "caltrack": [("default", 1)],
 }
@@ -41,6 +41,26 @@ DEFECTS = {"daily": ["short", "long", "gaps", "tmonth", "neg", "noise"],
 
 # every (family, profile) is the bootstrap model of one run in each batch: run index i < len(ROUND_ROBIN)
 ROUND_ROBIN = [(f, p) for f in ("daily", "billing", "hourly", "caltrack") for p, _w in PROFILE_WEIGHTS[f]]
+
+
+# C03 anchors: every run of a C03 batch first fits one of these fixed keys, so that each key is fitted about ten
+# times per quick batch in processes of all four classes (hash seed, earlier work of the process)
+def _b(fam, mid, tz="America/Chicago", **kw):
+    return dict({"fam": fam, "role": "baseline", "mid": mid, "tz": tz, "entry": "series"}, **kw)
+
+
+ANCHORS = [
+    ("hourly", "seed1", _b("hourly", 1, src="sample")),
+    ("daily", "default", _b("daily", 0, src="sample")),
+    ("hourly", "robust", _b("hourly", 2, src="sample")),
+    ("daily", "seasonmap", _b("daily", 111, tz="Europe/London")),
+    ("billing", "default", _b("billing", 0, src="sample")),
+    ("hourly", "seed0", _b("hourly", 1, src="sample")),
+    ("daily", "legacy", _b("daily", 102, tz="Australia/Sydney")),
+    ("billing", "seasonmap", _b("billing", 105, bill="monthly")),
+    ("hourly", "solar", _b("hourly", 131, tz="Europe/London", ghi=True)),
+    ("daily", "dev_nosmooth", _b("daily", 123, tz="US/Pacific")),
+]
 
 
 def _wchoice(rng, pairs):
@@ -300,17 +320,21 @@ class Gen:
         r = self.rng
         mode = self.mode
         ds = self._data_for(m0)
+        long_span = "partial" if (base0.get("src") == "sample" and base0["fam"] == "billing") else r.choice(["month", "full"])
         if mode == "C01":
             self.predict(m0, ds[0], ignore=True)
             doc = self.store(m0)
             if self.swarm["faults"]["crash"]:
                 self.crash()
+            # a restored object meets a short window first and a longer one afterwards, twice over
             m1 = self.load(doc)
-            d1 = self.make_data(self._reporting(base0, obs="present"))
-            self.predict(m1, d1, ignore=True)
+            d_s = self.make_data(self._reporting(base0, obs="present", span="day" if long_span != "partial" else "partial"))
+            d_l = self.make_data(self._reporting(base0, obs="present", span=long_span))
+            self.predict(m1, d_s, ignore=True)
+            self.predict(m1, d_l, ignore=True)
             doc2 = self.store(m1)
             m2 = self.load(doc2)
-            self.predict(m2, d1, ignore=True)
+            self.predict(m2, d_l, ignore=True)
             self.emit("INSPECT", m=m2)
         elif mode == "C02":
             # spans of growing length over the same weeks: one day, the month around it, then whatever was drawn
@@ -323,6 +347,12 @@ class Gen:
             self.emit("SCRIBBLE_PRED", m=m0)
             self.emit("SCRIBBLE_DATA", d=ds[0])
             self.predict(m0, ds[0], ignore=True)
+            # the very data object the model was fitted on: predict, let the caller edit the result, predict again
+            bs = self._data_for(m0, "baseline")
+            if bs:
+                self.predict(m0, bs[0], ignore=True)
+                self.emit("SCRIBBLE_PRED", m=m0)
+                self.predict(m0, bs[0], ignore=True)
             doc = self.store(m0)
             # the same history on a restored object: short span first, then the longer ones
             m1 = self.load(doc)
@@ -344,15 +374,21 @@ class Gen:
             m1 = self.load(doc)
             self.predict(m1, ds[0], ignore=False)
             self.predict(m1, ds[0], ignore=True)
+            # second generation: what the gate knows must survive being stored again
+            doc2 = self.store(m1)
+            m2 = self.load(doc2)
+            self.predict(m2, ds[0], ignore=False)
         elif mode == "C05":
             rec = self._reporting(base0, obs="present")
             rec["tgap"] = 0
             self.emit("PREDICT_PAIR", m=m0, recipe=rec, alter=r.choice(["scaled", "shuffled", "partnan", "allnan", "absent"]))
             d1 = self.make_data(self._reporting(base0, span=r.choice(["day", "week"])))
             self.predict(m0, d1, ignore=True)
-            rec2 = self._reporting(base0, obs="present", span="full")
-            rec2["tgap"] = 0
-            self.emit("PREDICT_PAIR", m=m0, recipe=rec2, alter=r.choice(["scaled", "shuffled", "allnan", "absent"]))
+            rec2 = self._reporting(base0, obs="present", span="full" if long_span != "partial" else "partial")
+            rec2["tgap"] = 1
+            self.emit("PREDICT_PAIR", m=m0, recipe=rec2, alter=r.choice(["scaled", "shuffled", "partnan", "allnan", "absent"]))
+            rec3 = dict(rec2, obs="partnan", tgap=0)
+            self.emit("PREDICT_PAIR", m=m0, recipe=rec3, alter="partnan2", seq=True)
             self.cost += 4 * PRED_COST.get(self.models[m0]["fam"], 0.3)
 
     # ------------------------------------------------------------------ picking
@@ -378,8 +414,18 @@ class Gen:
         self.configure()
         sw = self.swarm
         mode = self.mode
-        # bootstrap: one fitted model with one reporting set
         idx = self.seed % 1_000_003
+        if mode == "C03":
+            fam_a, prof_a, base_a = ANCHORS[idx % len(ANCHORS)]
+            d_a = self.make_data(dict(base_a), slot=N_DATA_SLOTS - 1)
+            m_a = self.fit(fam_a, d_a, profile=prof_a, ignore=True, mslot=N_MODEL_SLOTS - 1, allow_abort=False)
+            rep_a = {k: v for k, v in base_a.items() if k != "role"}
+            rep_a.update(role="reporting", span="partial" if base_a.get("src") == "sample" else "month", obs="present", tgap=0)
+            r_a = self.make_data(rep_a, slot=N_DATA_SLOTS - 2)
+            self.predict(m_a, r_a, ignore=True)
+            self.events[-1]["args"].pop("abort", None)
+            self.n_fit -= 1
+        # bootstrap: one fitted model with one reporting set
         forced = None
         if idx < len(ROUND_ROBIN):
             forced = ROUND_ROBIN[idx]
@@ -398,8 +444,21 @@ class Gen:
                 base0.pop("src", None)
                 if base0["mid"] < 100:
                     base0["mid"] += 100
+            if P.wants_weekend_regime(fam0, forced[1]):
+                base0 = dict(base0)
+                base0.pop("src", None)
+                base0["mid"] = 104 + (base0["mid"] % 8) + 16 * (idx % 3)   # (mid // 8) % 2 == 1: weekend regime
             if mode != "C04":
                 base0 = {k: v for k, v in base0.items() if k != "defect"}
+            elif base0.get("src") != "sample" and fam0 != "caltrack":
+                # the gate's two inputs, in rotation: a poorly fitting but sufficient baseline, a sufficiency defect, neither
+                base0 = {k: v for k, v in base0.items() if k != "defect"}
+                dfam0 = self._data_fam(fam0)
+                rot = (idx + self.seed // 1_000_003) % 3
+                if rot == 0:
+                    base0["defect"] = "noise"
+                elif rot == 1:
+                    base0["defect"] = r.choice([d for d in DEFECTS[dfam0] if d != "noise"])
             self.pool[fam0].append(base0)
         b = self.make_data(base0)
         m0 = self.fit(fam0, b, profile=forced[1] if forced else None, ignore=True if forced else None,
@@ -547,9 +606,15 @@ class Gen:
                 if m["fam"] == "caltrack" and r.random() < 0.7:
                     continue
                 rec = self._reporting(m["base"], obs="present")
-                rec["tgap"] = 0 if r.random() < 0.8 else rec["tgap"]
-                alter = _wchoice(r, [("scaled", 2), ("shuffled", 2), ("partnan", 2), ("allnan", 2), ("absent", 2)])
-                self.emit("PREDICT_PAIR", m=ms, recipe=rec, alter=alter)
+                rec["tgap"] = 1 if r.random() < 0.45 else 0
+                alter = _wchoice(r, [("scaled", 2), ("shuffled", 2), ("partnan", 2), ("allnan", 2), ("absent", 2),
+                                     ("partnan2", 1.5)])
+                if alter == "partnan2":
+                    rec["obs"] = "partnan"
+                args = dict(m=ms, recipe=rec, alter=alter)
+                if r.random() < 0.5:
+                    args["seq"] = True   # one copy of the model predicts both sets, one after the other
+                self.emit("PREDICT_PAIR", **args)
                 self.cost += 2 * PRED_COST.get(m["fam"], 0.3)
             elif op == "store":
                 if not fitted:
